@@ -212,6 +212,19 @@ impl<'a> Gen<'a> {
         }
     }
 
+    /// C12: `^E$` for a class expression E (legacy bracket, or a v-mode class set of nesting depth `depth`).
+    pub fn class_pattern(&mut self, depth: u32) -> (Node, Node) {
+        let cls = if self.flags.v {
+            let neg = self.rng.chance(1, 4);
+            Node::VClass(neg, self.vexpr(depth, !neg))
+        } else {
+            let neg = self.rng.chance(1, 3);
+            let n = self.rng.range(0, 4);
+            Node::Class(neg, (0..n).map(|_| self.class_item(false, false)).collect())
+        };
+        (Node::Cat(vec![Node::Bol, cls.clone(), Node::Eol]), cls)
+    }
+
     pub fn pattern(&mut self) -> Node {
         let d = self.cfg.max_depth;
         if self.cfg.first_term_bias && self.rng.chance(2, 3) {
@@ -1085,4 +1098,60 @@ pub fn bytes_hex(b: &[u8]) -> String {
     } else {
         b.iter().map(|c| format!("{:02x}", c)).collect()
     }
+}
+
+/// Every code point / string literally mentioned by a class expression.
+pub fn class_mentions(n: &Node, chars: &mut Vec<u32>, strs: &mut Vec<Vec<u32>>) {
+    fn item(it: &ClassItem, chars: &mut Vec<u32>, strs: &mut Vec<Vec<u32>>) {
+        match it {
+            ClassItem::C(c) => chars.push(*c),
+            ClassItem::R(a, b) => {
+                chars.push(*a);
+                chars.push(*b);
+                chars.push((*a + *b) / 2);
+                if *a > 0 {
+                    chars.push(*a - 1);
+                }
+                chars.push(*b + 1);
+            }
+            ClassItem::Q(ss) => {
+                for s in ss {
+                    strs.push(s.clone());
+                    chars.extend(s.iter());
+                }
+            }
+            ClassItem::Nested(_, e) => {
+                let items = match &**e {
+                    VExpr::Union(x) | VExpr::Inter(x) | VExpr::Sub(x) => x,
+                };
+                items.iter().for_each(|i| item(i, chars, strs));
+            }
+            _ => {}
+        }
+    }
+    match n {
+        Node::Class(_, items) => items.iter().for_each(|i| item(i, chars, strs)),
+        Node::VClass(_, e) => {
+            let items = match e {
+                VExpr::Union(x) | VExpr::Inter(x) | VExpr::Sub(x) => x,
+            };
+            items.iter().for_each(|i| item(i, chars, strs));
+        }
+        _ => {}
+    }
+}
+
+pub fn case_partners(c: u32) -> Vec<u32> {
+    let partners: &[&[u32]] = &[
+        &['a' as u32, 'A' as u32], &['b' as u32, 'B' as u32], &['s' as u32, 'S' as u32, 0x17F],
+        &['k' as u32, 'K' as u32, 0x212A], &[0xE9, 0xC9], &[0xDF, 0x1E9E], &[0x1C4, 0x1C5, 0x1C6], &[0x1F80, 0x1F88],
+        &[0x10400, 0x10428], &[0x3C3, 0x3C2, 0x3A3], &['i' as u32, 'I' as u32, 0x130, 0x131], &['c' as u32, 'C' as u32],
+        &['z' as u32, 'Z' as u32], &['j' as u32, 'J' as u32], &['l' as u32, 'L' as u32],
+    ];
+    for p in partners {
+        if p.contains(&c) {
+            return p.to_vec();
+        }
+    }
+    vec![c]
 }
